@@ -350,6 +350,13 @@ def e2e_cases(draw, profile):
         case['sched'] = draw(dense_schedules())
     if profile.get('shared_extra') and draw(st.booleans()):
         case['shared_extra'] = True
+    if profile.get('rejects') and draw(st.integers(0, 3)) == 0:
+        # calls the manager rejects at submit time (ValueError), made after
+        # the real transfers were submitted; the caller carries on
+        case['rejects'] = draw(st.lists(st.fixed_dictionaries({
+            'type': st.sampled_from(['upload', 'download', 'copy', 'delete']),
+            'how': st.sampled_from(['arn', 'badarg'])}),
+            min_size=1, max_size=2))
     if profile.get('agg'):
         case['agg'] = draw(st.sampled_from([None, 1, 4, 16]))
     if profile.get('cancels'):
